@@ -1,10 +1,13 @@
 package chain
 
 import (
+	"os"
+
 	"bytes"
 	"crypto/sha256"
 	"encoding/hex"
 	"sort"
+	"verif/mc/poisondb"
 
 	"github.com/NethermindEth/juno/blockchain"
 	"github.com/NethermindEth/juno/db"
@@ -12,8 +15,16 @@ import (
 	_ "github.com/NethermindEth/juno/encoder/registry"
 )
 
-// NewNode opens a real juno Blockchain on the store with the chosen state backend.
+// NewNode opens a real juno Blockchain on the store with the chosen state backend. juno reads the store through
+// verif/mc/poisondb: every read buffer the store lends (Get callback argument, UncopiedValue) is scribbled over when the
+// loan ends, so a retained store buffer - harmless on the in-memory backend, garbage on a recycling one - shows up as a
+// wrong answer in whichever check is reading. VERIF_NO_POISON=1 switches this off (development aid).
 func NewNode(d db.KeyValueStore, newState bool) *blockchain.Blockchain {
+	if os.Getenv("VERIF_NO_POISON") == "" {
+		if _, already := d.(*poisondb.DB); !already {
+			d = poisondb.Wrap(d)
+		}
+	}
 	return blockchain.New(d, Net, blockchain.WithNewState(newState))
 }
 
